@@ -124,7 +124,23 @@ func build() string {
 		infra("mkoverlay failed: %v\n%s", err, out)
 	}
 	bin := filepath.Join(work, "props.test")
-	out, err = run(sim, nil, 20*time.Minute, goBin, "test", "-c", "-overlay", filepath.Join(work, "overlay", "overlay.json"), "-o", bin, "./props")
+	args := []string{"test", "-c", "-overlay", filepath.Join(work, "overlay", "overlay.json"), "-o", bin}
+	if repo != "/repo" {
+		// exploratory runs against a scratch copy of the repository (never used by the
+		// registered checks): same module file with the replace directive re-pointed
+		gm, err := os.ReadFile(filepath.Join(sim, "go.mod"))
+		if err != nil {
+			infra("cannot read go.mod: %v", err)
+		}
+		alt := filepath.Join(work, "alt.mod")
+		os.WriteFile(alt, []byte(strings.Replace(string(gm), "=> /repo", "=> "+repo, 1)), 0o644)
+		if gs, err := os.ReadFile(filepath.Join(sim, "go.sum")); err == nil {
+			os.WriteFile(filepath.Join(work, "alt.sum"), gs, 0o644)
+		}
+		args = append(args, "-modfile="+alt)
+	}
+	args = append(args, "./props")
+	out, err = run(sim, nil, 20*time.Minute, goBin, args...)
 	if err != nil {
 		infra("building the harness against %s failed: %v\n%s", repo, err, out)
 	}
@@ -138,6 +154,9 @@ func main() {
 	par := flag.Int("j", runtime.NumCPU(), "parallel workers")
 	flag.Parse()
 	work = filepath.Join(verif, ".work")
+	if wd := os.Getenv("VERIF_WORK"); wd != "" {
+		work = wd
+	}
 	if t := os.Getenv("VERIF_TIER"); t != "" && flag.NArg() > 0 && *tier == "quick" && flag.Lookup("tier").Value.String() == "quick" {
 		_ = t
 	}
@@ -200,6 +219,9 @@ func main() {
 		chunk = 400
 	}
 	replayDir := filepath.Join(verif, "replays")
+	if wd := os.Getenv("VERIF_WORK"); wd != "" {
+		replayDir = filepath.Join(wd, "replays")
+	}
 	os.MkdirAll(replayDir, 0o755)
 	outDir := filepath.Join(work, "out-"+prop+"-"+*tier)
 	os.RemoveAll(outDir)
@@ -479,8 +501,12 @@ func main() {
 		"wall_s":      wall, "violations": len(fresh),
 	}
 	js, _ := json.MarshalIndent(ev, "", " ")
-	os.MkdirAll(filepath.Join(verif, "evidence"), 0o755)
-	if err := os.WriteFile(filepath.Join(verif, "evidence", prop+".json"), js, 0o644); err != nil {
+	evDir := filepath.Join(verif, "evidence")
+	if wd := os.Getenv("VERIF_WORK"); wd != "" {
+		evDir = filepath.Join(wd, "evidence")
+	}
+	os.MkdirAll(evDir, 0o755)
+	if err := os.WriteFile(filepath.Join(evDir, prop+".json"), js, 0o644); err != nil {
 		infra("cannot write evidence: %v", err)
 	}
 
